@@ -89,35 +89,21 @@ def run(ctx: Ctx) -> None:
     # the cache system's own fill
     ic = m.cls("InstructionMemoryCacheSystem")
     fill = m.method(ic, "_read_block_from_memory", own=True)
-    comps = [n for n in ast.walk(fill.node) if isinstance(n, ast.ListComp)]
+    from ..cacheshape import WORD_ADDRS, fill_form
+    form = fill_form(m, fill)
     ok = False
-    if len(comps) == 1 and isinstance(comps[0].elt, ast.IfExp) and len(comps[0].generators) == 1:
-        ife = comps[0].elt
-        g = comps[0].generators[0]
-        s0 = fill.params[0]
-        test_ok = isinstance(ife.test, ast.Call) and isinstance(ife.test.func, ast.Attribute) and ife.test.func.attr == "instruction_at_address" \
-            and self_attr(ife.test.func.value, s0, "instruction_memory")
-        body_ok = isinstance(ife.body, ast.Call) and isinstance(ife.body.func, ast.Attribute) and ife.body.func.attr == "read_instruction" \
-            and self_attr(ife.body.func.value, s0, "instruction_memory")
-        else_ok = isinstance(ife.orelse, ast.Call) and ast.unparse(ife.orelse.func) == "EmptyInstruction"
-        addr = None
-        same = False
-        if test_ok and body_ok:
-            ta, ba = ife.test.args[0], ife.body.args[0]
-            if isinstance(ta, ast.NamedExpr):
-                addr = ta.value
-                same = isinstance(ba, ast.Name) and ba.id == ta.target.id
-            else:
-                addr = ta
-                same = ast.dump(ta) == ast.dump(ba)
-            sanctioned.add(id(ife.body))
-        lf = linform(addr) if addr is not None else None
-        ok = test_ok and body_ok and else_ok and same and isinstance(g.target, ast.Name) \
-            and lf == {"decoded_address.block_alinged_address": 1, g.target.id: 4} \
-            and ast.unparse(g.iter) == f"range({s0}.cache.num_words_in_block)"
+    if form is not None:
+        addr_ok = {w.format(i="_c0") for w in WORD_ADDRS}
+        a = next((x for x in addr_ok if x in form["elt"]), None)
+        ok = a is not None and form["iter"] == "range(P0.cache.num_words_in_block)" and form["elt"] == (
+            f"cases[P0.instruction_memory.instruction_at_address(address={a})]{{EmptyInstruction() #1; "
+            f"P0.instruction_memory.read_instruction(address={a}) #2}}")
+        for n in ast.walk(form["elt_node"]):
+            if isinstance(n, ast.Call) and isinstance(n.func, ast.Attribute) and n.func.attr == "read_instruction":
+                sanctioned.add("fill")
     r.check(ok, "InstructionMemoryCacheSystem._read_block_from_memory", fill.loc(),
             "the block fill is not `read_instruction(a) if instruction_at_address(a) else EmptyInstruction()` for "
-            "a = block_alinged_address + 4*i, i in range(num_words_in_block)")
+            "a = block_alinged_address + 4*i, i in range(num_words_in_block)", None if form is None else {"iter": form["iter"], "elt": form["elt"]})
     ri = m.method(ic, "read_instruction", own=True)
     rets = [n for n in walk_no_nested(ri.node) if isinstance(n, ast.Return)]
     ok = len(rets) == 1 and rets[0].value is not None and ast.unparse(rets[0].value).endswith("[decoded_address.block_offset]")
@@ -149,6 +135,8 @@ def run(ctx: Ctx) -> None:
     # every other caller
     for f in all_functions(m, skip_cli=True):
         for c in calls_in(f.node):
+            if f is fill and "fill" in sanctioned:
+                continue  # the guarded fill, judged above on its normal form
             if isinstance(c.func, ast.Attribute) and c.func.attr == "read_instruction" and id(c) not in sanctioned:
                 r.check(False, f"{short(f.qname)}|read_instruction", f.loc(c),
                         f"unexpected fetch site `{seg(f, c)}` in {short(f.qname)}: the fetch counter would no longer equal "
